@@ -692,4 +692,53 @@ def r10_same_environment(a, tier):
     return rep
 
 
-RULES = [r1_draw_submit, r2_pop_yield, r3_snapshot, r4_same_worker, r5_capture, r6_fresh_run_state, r7_dispatch, r8_worker_contract, r9_collect_until_empty, r10_same_environment]
+def r11_variants_delegate_once(a, tier):
+    from ..rules.common import run_flags
+    rep = RuleReport(
+        'C18.R11',
+        'every mapping variant that active_pmap() can hand to parproc delivers each task through the verified loop exactly once: on every path '
+        '(normal or through a handler) of a variant returned by active_pmap - and of the variants it delegates to - the task iterable is '
+        'handed to executor_pmap (or to another variant) at most once, unchanged, together with the worker function; a handler that starts '
+        'the run again after results were already yielded delivers them twice [paths: state = delegations so far]',
+        floor=2,
+    )
+    ap = a.p.func('tatsu.parproc.pmap.active_pmap')
+    nested = {f.name: f for f in a.p.functions.values() if f.parent is ap}
+    returned = sorted({n.value.id for n in walk_no_defs(ap.node) if isinstance(n, ast.Return) and isinstance(n.value, ast.Name) and n.value.id in nested})
+    if not returned:
+        raise AnalysisError('C18.R11: active_pmap returns none of its nested variants by name any more')
+    todo, seen = list(returned), set()
+    while todo:
+        name = todo.pop()
+        if name in seen or name not in nested or name == 'executor_pmap':
+            continue
+        seen.add(name)
+        fn = nested[name]
+        tasks_param = next((p for p in fn.params if p == 'tasks'), None)
+
+        def flagger(ex, f, node, state, fn=fn):
+            nm = dotted(node.func)
+            if f is fn and nm in nested and nm != fn.name:
+                return ('twice',) if 'once' in state else ('once',)
+            return ()
+        outs = run_flags(a, fn, flagger)
+        calls = [n for n in walk_no_defs(fn.node) if isinstance(n, ast.Call) and dotted(n.func) in nested]
+        for c in calls:
+            todo.append(dotted(c.func))
+            args = [norm(x) for x in c.args] + [norm(k.value) for k in c.keywords]
+            passes = (tasks_param is None or tasks_param in args) and ('process' not in fn.params or 'process' in args)
+            rep.add({'variant': name, 'delegates_to': dotted(c.func), 'arguments': args, 'hands_on_tasks_and_worker_unchanged': passes})
+            if not passes:
+                rep.fail(fn.qualname, f'variant-args:{name}->{dotted(c.func)}', f'{name} hands {args} to {dotted(c.func)}: not the task iterable / worker function it was given', fn.loc)
+        twice = [o for o in outs if 'twice' in o.state]
+        never = [o for o in outs if o.kind in ('return', 'next') and 'once' not in o.state and 'twice' not in o.state]
+        rep.add({'variant': name, 'returned_by_active_pmap': name in returned, 'paths': len(outs), 'paths_delegating_twice': len(twice), 'normal_paths_without_delegation': len(never)})
+        if twice:
+            rep.fail(fn.qualname, f'variant-twice:{name}', f'{name} can hand its tasks to a mapping loop a second time (a handler that starts over after the first run raised): '
+                     f'results already yielded by the first run are delivered again, or tasks drawn from an iterator are lost', fn.loc)
+        if never and calls:
+            rep.fail(fn.qualname, f'variant-skips:{name}', f'{name} has a normal path that never hands its tasks to a mapping loop: the payloads get no result', fn.loc)
+    return rep
+
+
+RULES = [r1_draw_submit, r2_pop_yield, r3_snapshot, r4_same_worker, r5_capture, r6_fresh_run_state, r7_dispatch, r8_worker_contract, r9_collect_until_empty, r10_same_environment, r11_variants_delegate_once]
